@@ -35,11 +35,23 @@ func replacerPairs(p *Prog, global string) ([][2]string, bool) {
 
 func ruleEscapeTables(p *Prog, l *Ledger, tier string) {
 	const rule = "E9.T1-escape-tables"
-	esc, ok1 := replacerPairs(p, "htmlEscaper")
-	un, ok2 := replacerPairs(p, "htmlUnescaper")
-	if !ok1 || !ok2 {
-		l.Undecide(rule, "", rule, "", "extraction-below-minimum: htmlEscaper / htmlUnescaper are no longer strings.NewReplacer calls with constant arguments")
+	ep, up := p.escapeProgramOf("escapeHTML"), p.escapeProgramOf("unescapeHTML")
+	if ep.why != "" || up.why != "" {
+		l.Undecide(rule, "", rule, "", "extraction-below-minimum: escapeHTML / unescapeHTML are not read as replacement programs ("+ep.why+up.why+")")
 		return
+	}
+	esc, un := ep.flat(), up.flat()
+	if ep.sequential() || up.sequential() {
+		fails, und, proved := escSequentialVerdict(ep, up)
+		for _, f := range fails {
+			l.Fail(rule, "", rule+"|staged|"+f.msg, p.Pos(f.pos), f.msg)
+		}
+		if und != "" {
+			l.Undecide(rule, "", rule+"|staged", "", und)
+		}
+		for _, pr := range proved {
+			l.Prove(rule, "", rule+"|staged", "", pr)
+		}
 	}
 	unm := map[string]string{}
 	for _, pr := range un {
